@@ -8,7 +8,7 @@
      cfg_ok c             fragment_num >= 1, delete_threshold >= 0, 0 <= fragment_duration_ms <= 2^35 *)
 From Coq Require Import ZArith Bool List Lia.
 From Lal Require Import Common.LBytes Hls.HlsFloat Hls.HlsFs Hls.HlsPlaylist Hls.HlsMuxer Hls.HlsConsistent
-  Hls.HlsInv Hls.HlsRunProofs Hls.HlsTraceProofs.
+  Hls.HlsInv Hls.HlsRunProofs Hls.HlsTraceProofs Hls.HlsFinalProofs Hls.HlsLossProofs.
 Open Scope Z_scope.
 
 (* At EVERY prefix of the operation sequence: the live playlist, if present, is a complete playlist (the text
@@ -40,6 +40,58 @@ Theorem c10_listed_segments_stay : forall c evs j k fj,
   exists pj, fdata fj = print_live (c_stream c) pj /\ Forall (seg_file_ok (state_at c evs k)) (pl_segs pj).
 Proof. exact listed_segments_stay. Qed.
 Print Assumptions c10_listed_segments_stay.
+
+(* Nothing is lost, nothing is written twice (no hypothesis at all): the data written to segment files, PAT/PMT
+   writes excluded, are exactly the frames fed from the first boundary frame of each publication on, in order. *)
+Theorem c10_no_loss : forall c evs, fst (fws false (run c evs)) = accepted false false evs.
+Proof. exact no_loss. Qed.
+Print Assumptions c10_no_loss.
+
+(* ... and they are in sequence order: segment ids are 0,1,2,... within a publication and every Write / Close
+   goes to the segment created last (wrs checks exactly that while scanning the operation sequence). *)
+Theorem c10_segments_in_sequence : forall c evs, exists r, wrs None 0 (run c evs) = Some r.
+Proof. exact segments_in_sequence. Qed.
+Print Assumptions c10_segments_in_sequence.
+
+(* A segment is opened either at a boundary frame (with video: a key frame) or by a forced split, in which case
+   it carries the discontinuity flag that every playlist listing it prints.  (updateFragment is the only place
+   where segments are created; the frame it is called for is the first one written to the new segment.) *)
+Theorem c10_segment_start : forall c m s ts b now,
+  Inv c m s -> good_pp (m_patpmt m) ->
+  let r := update_fragment c m s ts b now in
+  existsb is_create (snd r) = true -> b = true \/ cur_discont c (fst r) = true.
+Proof. exact segment_start. Qed.
+Print Assumptions c10_segment_start.
+
+(* When the stream ends (Dispose) the live playlist, if there is one, carries the end marker. *)
+Theorem c10_final_live : forall c evs,
+  cfg_ok c -> wf_evs c Clean (evs ++ [EvDispose]) -> ended c (apply_all [] (run c (evs ++ [EvDispose]))).
+Proof. exact final_live_ended. Qed.
+Print Assumptions c10_final_live.
+
+(* Re-publishing over the directory of the previous publication (no cleanup in between, e.g. cleanup mode 0):
+   the media sequence goes from 2 back to 0.  Known finding C10-republish-media-sequence-restarts. *)
+Theorem c10_republish_seq_refuted :
+  exists c evs j k fj fk pj pk,
+    cfg_ok c /\ (j <= k)%nat /\ no_removeall (skipn j (firstn k (run c evs))) /\
+    fs_lookup PLive (state_at c evs j) = Some fj /\ fs_lookup PLive (state_at c evs k) = Some fk /\
+    fdata fj = print_live (c_stream c) pj /\ fdata fk = print_live (c_stream c) pk /\ pl_seq pk < pl_seq pj.
+Proof.
+  exists (mkcfg [115%N] 1000 1 0 0),
+    [EvNew; EvPatPmt []; EvFeed false 0 0 true 5 []; EvFeed false 0 90000 true 6 []; EvFeed false 0 180000 true 7 [];
+     EvDispose; EvNew; EvPatPmt []; EvFeed false 0 0 true 9 []; EvFeed false 0 90000 true 10 []].
+  exists 30%nat, 36%nat.
+  eexists. eexists.
+  exists (mkpl 1 2 [mkseg 7 2 fl0 false] true), (mkpl 1 0 [mkseg 9 0 (f_div (f_of_Z 90000) (f_of_Z 90000)) true] false).
+  split; [unfold cfg_ok; cbn; lia|].
+  split; [lia|].
+  split; [vm_compute; repeat constructor|].
+  split; [vm_compute; reflexivity|].
+  split; [vm_compute; reflexivity|].
+  split; [vm_compute; reflexivity|].
+  split; [vm_compute; reflexivity|cbn; lia].
+Qed.
+Print Assumptions c10_republish_seq_refuted.
 
 (* F-16 and its sibling, on the pinned tree's computation (live_target_orig): the target duration is smaller
    than a listed duration rounded to the nearest second.
